@@ -35,7 +35,10 @@ type rectOpsRec struct {
 	Bmin    []int    `json:"bmin"` // bounds of RectSet.Solid()
 	Bmax    []int    `json:"bmax"`
 	Bexact  bool     `json:"bexact"`
-	Panic   string   `json:"panic"`
+	// NoBounds: a history in tenths - faces that the judge's integers take for one plane are a few 1e-17 apart, and the
+	// sliver a removal leaves between them belongs to the set (and to its bounds) although no probe can see it
+	NoBounds bool   `json:"nobounds"`
+	Panic    string `json:"panic"`
 }
 
 func init() {
@@ -131,6 +134,7 @@ func init() {
 				cv := func(k int) float64 { return float64(k) }
 				if id%3 == 2 {
 					unit = 0.1
+					rec.NoBounds = true
 					cv = func(k int) float64 {
 						way := rng.Intn(3)
 						if forced >= 0 {
